@@ -95,7 +95,18 @@ fn push_failure(t: &TD, cs: &[TD]) -> Option<String> {
     let mut real = t.build();
     let before = canon_real(&real);
     let built: Vec<_> = cs.iter().map(|c| c.build()).collect();
-    let r = match observe(|| real.push_components(built).map_err(|e| e.to_string())) {
+    // the argument is `impl IntoIterator`: a Vec, a filtered iterator (size_hint lower bound 0),
+    // an exact prefix chained with a generated tail
+    let kind = (cs.len() + t.kids.len()) % 3;
+    let r = match observe(|| match kind {
+        0 => real.push_components(built).map_err(|e| e.to_string()),
+        1 => real.push_components(built.into_iter().filter(|_| true)).map_err(|e| e.to_string()),
+        _ => {
+            let mut it = built.into_iter();
+            let first: Vec<_> = it.by_ref().take(1).collect();
+            real.push_components(first.into_iter().chain(std::iter::from_fn(move || it.next()))).map_err(|e| e.to_string())
+        }
+    }) {
         Obs::Ret(r) => r,
         Obs::Panic(p) => return Some(format!("push_components panicked: {}", p)),
     };
@@ -242,7 +253,7 @@ pub fn run(ctx: &mut Ctx) {
             break;
         }
         let d__ = 1 + rng.below(3);
-        let t = g.term(&mut rng, d__, false);
+        let t = g.term_x(&mut rng, d__);
         ctx.report.eval();
         if i % 2 == 0 {
             let s = match rng.below(4) {
